@@ -419,8 +419,9 @@ static void run_dispatch(const std::vector<int>& kinds, vp::Local& L) {
     if (kinds.size() >= 2) ++L.nontrivial;
 }
 
+// sequences of length 0..len: index 0 is the empty sequence (flush must still be called once)
 static uint64_t n_seq_upto(uint64_t k, unsigned len) {
-    uint64_t n = 0, p = 1;
+    uint64_t n = 1, p = 1;
     for (unsigned i = 1; i <= len; ++i) {
         p *= k;
         n += p;
@@ -428,6 +429,8 @@ static uint64_t n_seq_upto(uint64_t k, unsigned len) {
     return n;
 }
 static std::vector<int> nth_seq(uint64_t idx, uint64_t k) {
+    if (idx == 0) return {};
+    --idx;
     uint64_t p = k;
     unsigned len = 1;
     while (idx >= p) {
@@ -682,7 +685,7 @@ int main(int argc, char** argv) {
         subs.push_back(s);
     }
     return vp::run_enum(subs,
-                        "enumeration: all item sequences of length<=4 over 13 item kinds (node, way, relation, area, changeset, removed node, and the seven non-entity "
+                        "enumeration: all item sequences of length 0..4 over 13 item kinds (node, way, relation, area, changeset, removed node, and the seven non-entity "
                         "item types) plus seeded sequences of length 5..44, each run through 9 apply()/apply_item() forms (const/non-const buffer, Item/OSMObject/Way "
                         "iterator ranges, 1-6 handlers: static const and non-const handlers, DynamicHandler, ChainHandler, lambdas with const/non-const parameters); all "
                         "version histories of <=4 objects x runs 1..4 x types (with and without equal ids across types) through DiffIterator and apply_diff with 1 and 3 "
